@@ -292,31 +292,32 @@ theorem nxLearn_size (v : V) : SizeOK NXActionLearn.lenM NXActionLearn.marshalM 
   · revert h2; size_fill
   · exact absurd h2 (by simp)
 
-/-- NXActionConnTrack: Len() is the stored header length; the buffer is allocated from it and the nested actions are
-    copied into it — for ANY encoder `sub` of the nested actions -/
-theorem nxConnTrack_size (sub : V → R (Bytes × V)) (v : V) :
-    SizeOK NXActionConnTrack.lenM (NXActionConnTrack.marshalWith sub) v := by
+/-- NXActionConnTrack: Len() recomputes 24 + the nested actions' current sizes (and stores it in the header);
+    MarshalBinary() calls it first, allocates exactly that many bytes and copies the nested actions into them —
+    for ANY Len() / encoder pair `subLen` / `sub` of the nested actions -/
+theorem nxConnTrack_size (subLen : V → R (UInt16 × V)) (sub : V → R (Bytes × V)) (v : V) :
+    SizeOK (NXActionConnTrack.lenWith subLen) (NXActionConnTrack.marshalWith subLen sub) v := by
   intro l v1 bs v2 h1 h2
   unfold NXActionConnTrack.marshalWith at h2
-  split at h2
-  · simp only [NXActionConnTrack.lenM] at h1
-    obtain ⟨l', hl, h1⟩ := bind_ok_inv _ _ _ h1
-    obtain ⟨rfl, rfl⟩ := same_ok _ _ _ _ h1
-    simp only [hl, Res.bind_ok] at h2
-    obtain ⟨hb, _, h2⟩ := bind_ok_inv _ _ _ h2
-    obtain ⟨buf, hbuf, h2⟩ := bind_ok_inv _ _ _ h2
-    obtain ⟨⟨buf', acts'⟩, hacts, h2⟩ := bind_ok_inv _ _ _ h2
-    cases h2
+  obtain ⟨⟨l', v'⟩, hl, h3⟩ := bind_ok_inv _ _ _ h2
+  rw [h1] at hl
+  cases hl
+  simp only at h3
+  split at h3
+  · obtain ⟨hb, _, h4⟩ := bind_ok_inv _ _ _ h3
+    obtain ⟨buf, hbuf, h5⟩ := bind_ok_inv _ _ _ h4
+    obtain ⟨⟨buf', acts'⟩, hacts, h6⟩ := bind_ok_inv _ _ _ h5
+    cases h6
     rw [NXActionConnTrack.marshalActs_length _ _ _ _ _ _ hacts]
     exact fill_length _ _ _ hbuf
-  · exact absurd h2 (by simp)
+  · exact absurd h3 (by simp)
 
 /-! ### the Action interface -/
 
 /-- every action kind except conntrack, through the interface dispatch -/
-theorem action_size_leaf (v : V) : SizeOK Action.lenM Action.marshalLeaf v := by
+theorem action_size_leaf (v : V) : SizeOK Action.lenLeaf Action.marshalLeaf v := by
   intro l v1 bs v2 h1 h2
-  unfold Action.lenM at h1
+  unfold Action.lenLeaf at h1
   unfold Action.marshalLeaf at h2
   split at h1 <;> rename_i hk <;> simp only [hk] at h2
   · exact actionHeader_size v l v1 bs v2 h1 h2
@@ -332,7 +333,6 @@ theorem action_size_leaf (v : V) : SizeOK Action.lenM Action.marshalLeaf v := by
   · exact actionSetField_size v l v1 bs v2 h1 h2
   · exact nxHeader_size v l v1 bs v2 h1 h2
   · exact nxConjunction_size v l v1 bs v2 h1 h2
-  · exact absurd h2 (by simp)
   · exact nxRegLoad_size v l v1 bs v2 h1 h2
   · exact nxRegMove_size v l v1 bs v2 h1 h2
   · exact nxResubmit_size v l v1 bs v2 h1 h2
@@ -351,25 +351,27 @@ theorem action_size_leaf (v : V) : SizeOK Action.lenM Action.marshalLeaf v := by
 /-- Action.Len() / Action.MarshalBinary() through the interface, at every nesting bound: whatever action a value
     holds (any kind, any field values, conntrack actions nested to any depth), the encoding has exactly the size
     the action reports -/
-theorem action_sizeD (d : Nat) (v : V) : SizeOK Action.lenM (Action.marshalD d) v := by
+theorem action_sizeD (d : Nat) (v : V) : SizeOK (Action.lenD d) (Action.marshalD d) v := by
   intro l v1 bs v2 h1 h2
   cases d with
   | zero => exact absurd h2 (by simp [Action.marshalD])
   | succ d =>
     unfold Action.marshalD at h2
+    unfold Action.lenD at h1
     split at h2
     · rename_i hk
-      unfold Action.lenM at h1
-      simp only [hk] at h1
-      exact nxConnTrack_size _ v l v1 bs v2 h1 h2
-    · exact action_size_leaf v l v1 bs v2 h1 h2
+      simp only [hk, if_true] at h1
+      exact nxConnTrack_size _ _ v l v1 bs v2 h1 h2
+    · rename_i hk
+      simp only [hk, if_false] at h1
+      exact action_size_leaf v l v1 bs v2 h1 h2
 
 /-- the Action interface: reported size = encoded size, for every action value -/
 theorem action_size (v : V) : SizeOK Action.lenM Action.marshalM v := action_sizeD _ v
 
 /-- NXActionConnTrack with the knot tied -/
 theorem nxConnTrack_size' (v : V) : SizeOK NXActionConnTrack.lenM NXActionConnTrack.marshalM v :=
-  nxConnTrack_size _ v
+  nxConnTrack_size _ _ v
 
 /-! ### alignment -/
 
@@ -380,7 +382,11 @@ theorem action_len_aligned (v : V)
       "ActionPopMpls", "ActionSetField", "NXActionCTNAT", "NXActionLearn", "NXActionNote", "NXActionRegLoad2",
       "NXActionController"])
     (l : UInt16) (v1 : V) (h : Action.lenM v = .ok (l, v1)) : l.toNat % 8 = 0 := by
+  have hnc : v.kind ≠ "NXActionConnTrack" := by
+    intro hc; rw [hc] at hk; exact absurd hk (by decide)
   unfold Action.lenM at h
+  rw [Action.lenD_succ_leaf _ v hnc] at h
+  unfold Action.lenLeaf at h
   split at h <;> rename_i hk'
   all_goals first
     | (rw [hk'] at hk; exact absurd hk (by decide))
@@ -465,30 +471,40 @@ theorem instrMeter_size (v : V) : SizeOK InstrMeter.lenM InstrMeter.marshalM v :
     exact InstrHeader.bytes_length _ _ hb
   · exact absurd h2 (by simp)
 
-/-- InstrActions (apply / write / clear actions): header, pad and the complete encodings of all actions.
-    The encoding is built with `append`, Len() adds in uint16: equal modulo 2^16, for every list of actions. -/
+/-- InstrActions (apply / write / clear actions): header (with Length = Len()), pad and the complete encodings of
+    all actions.  The encoding is built with `append`, Len() adds in uint16: equal modulo 2^16, for every list of
+    actions. -/
 theorem instrActions_sizeMod (v : V) : SizeMod InstrActions.lenM InstrActions.marshalM v := by
   intro l v1 bs v2 h1 h2
   unfold InstrActions.marshalM at h2
-  split at h2
-  · simp only [InstrActions.lenM] at h1
-    obtain ⟨⟨ls, as'⟩, hm, h1'⟩ := bind_ok_inv _ _ _ h1
+  obtain ⟨⟨l', v'⟩, hl, h3⟩ := bind_ok_inv _ _ _ h2
+  rw [h1] at hl
+  cases hl
+  unfold InstrActions.lenM at h1
+  split at h1
+  · obtain ⟨⟨ls, as'⟩, hm, h1'⟩ := bind_ok_inv _ _ _ h1
     cases h1'
-    obtain ⟨hb, hhb, h3⟩ := bind_ok_inv _ _ _ h2
-    obtain ⟨⟨abs, as'', e⟩, hml, h4⟩ := bind_ok_inv _ _ _ h3
-    simp only at h4
-    split at h4
-    · exact absurd h4 (by simp)
-    · cases h4
-      have key := marshalList_length_same Action.lenM Action.marshalM _ _ _ _ _ _ _ hm hml
-        (fun x _ => Action.marshalM_noErr x) (fun x _ => (action_size x).toMod)
-      have hl := InstrHeader.bytes_length _ _ hhb
-      simp only [List.length_append, hl, makeCopy_length]
-      rw [UInt16.toNat_add, key]
-      have : (2:Nat) ^ 16 = 65536 := rfl
-      have h8 : (8 : UInt16).toNat = 8 := rfl
-      rw [this, h8]; omega
-  · exact absurd h2 (by simp)
+    simp only at h3
+    split at h3
+    · rename_i heq
+      cases heq
+      obtain ⟨hb, hhb, h4⟩ := bind_ok_inv _ _ _ h3
+      obtain ⟨⟨abs, as'', e⟩, hml, h5⟩ := bind_ok_inv _ _ _ h4
+      simp only at h5
+      split at h5
+      · exact absurd h5 (by simp)
+      · cases h5
+        have key := marshalList_length_after Action.lenM Action.marshalM _ _ _ _ _ _ _ hm hml
+          (fun x _ => Action.marshalM_noErr x)
+          (fun x _ l y b z hx hy => (action_size y).toMod l y b z (Action.lenM_idem x l y hx) hy)
+        have hlen := InstrHeader.bytes_length _ _ hhb
+        simp only [List.length_append, hlen, makeCopy_length]
+        rw [UInt16.toNat_add, key]
+        have : (2:Nat) ^ 16 = 65536 := rfl
+        have h8 : (8 : UInt16).toNat = 8 := rfl
+        rw [this, h8]; omega
+    · exact absurd h3 (by simp)
+  · exact absurd h1 (by simp)
 
 /-- … and exactly equal whenever the encoding is shorter than 64 KiB -/
 theorem instrActions_size (v : V) (l : UInt16) (v1 : V) (bs : Bytes) (v2 : V)
@@ -499,16 +515,21 @@ theorem instrActions_size (v : V) (l : UInt16) (v1 : V) (bs : Bytes) (v2 : V)
 theorem instrActions_replicate (n : Nat) :
     let v : V := .obj "InstrActions" [.obj "InstrHeader" [.num 4, .num 8], .bytes [], .list (List.replicate n (ActionOutput.new 1))]
     InstrActions.lenM v = .ok (8 + sum16 (List.replicate n 16), v) ∧
-    InstrActions.marshalM v = .ok (be16 (n16 4) ++ be16 (n16 8) ++ makeCopy 4 [] ++
-      (List.replicate n ([0, 0, 0, 16, 0, 0, 0, 1, 1, 0, 0, 0, 0, 0, 0, 0] : Bytes)).flatten, v) := by
+    InstrActions.marshalM v = .ok (be16 (n16 4) ++ be16 (n16 (8 + sum16 (List.replicate n 16)).toNat) ++ makeCopy 4 [] ++
+      (List.replicate n ([0, 0, 0, 16, 0, 0, 0, 1, 1, 0, 0, 0, 0, 0, 0, 0] : Bytes)).flatten,
+      .obj "InstrActions" [.obj "InstrHeader" [.num 4, .num (8 + sum16 (List.replicate n 16)).toNat], .bytes [],
+        .list (List.replicate n (ActionOutput.new 1))]) := by
   have hl : Action.lenM (ActionOutput.new 1) = .ok (16, ActionOutput.new 1) := rfl
   have hm : Action.marshalM (ActionOutput.new 1) =
       .ok ([0, 0, 0, 16, 0, 0, 0, 1, 1, 0, 0, 0, 0, 0, 0, 0], ActionOutput.new 1) := rfl
   intro v
-  constructor
-  · simp only [v, InstrActions.lenM, mapM2_replicate _ _ _ hl, Res.bind_ok]
-  · simp only [v, InstrActions.marshalM, InstrHeader.bytes, marshalList_replicate _ _ _ hm, Res.bind_ok]
-    split <;> simp
+  have h1 : InstrActions.lenM v = .ok (8 + sum16 (List.replicate n 16), v) := by
+    simp only [v, InstrActions.lenM, mapM2_replicate _ _ _ hl, Res.bind_ok]
+  refine ⟨h1, ?_⟩
+  unfold InstrActions.marshalM
+  rw [h1]
+  simp only [v, Res.bind_ok, V.u16, InstrHeader.bytes, marshalList_replicate _ _ _ hm]
+  split <;> simp
 
 /-- GENUINE LIMIT (uint16 Len() vs. `append`): an InstrActions holding 4096 output actions reports 8 bytes while its
     encoding is 65 544 bytes long.  `SizeOK InstrActions.lenM InstrActions.marshalM` is false; `instrActions_sizeMod`
